@@ -380,3 +380,42 @@ func ScanChunks(data []byte) []Chunk {
 	}
 	return out
 }
+
+// ForgeValue returns a copy of value whose last four bytes are chosen so that the CRC stored
+// in the chunk header of the record put(key, value) - written as ONE Full chunk, outside a
+// batch - equals target. ok is false when the record cannot be a single chunk or the value
+// is shorter than four bytes.
+func ForgeValue(key, value []byte, target uint32) (out []byte, ok bool) {
+	plen := EncodedLen(len(key), len(value), 0)
+	if len(value) < 4 || plen > Block-Header {
+		return value, false
+	}
+	// bytes covered by the CRC: length (2, LE), chunk type (Full), payload
+	buf := make([]byte, 0, 3+plen)
+	buf = append(buf, byte(plen), byte(plen>>8), Full)
+	buf = append(buf, RecNormal)
+	buf = binary.AppendVarint(buf, int64(len(key)))
+	buf = binary.AppendVarint(buf, int64(len(value)))
+	buf = binary.AppendUvarint(buf, 0)
+	buf = append(buf, key...)
+	buf = append(buf, value...)
+	tab := crc32.IEEETable
+	var rev [256]byte
+	for i, t := range tab {
+		rev[t>>24] = byte(i)
+	}
+	reg := ^crc32.ChecksumIEEE(buf[:len(buf)-4])
+	want := ^target
+	var idx [4]byte
+	for i := 3; i >= 0; i-- {
+		idx[i] = rev[want>>24]
+		want = (want ^ tab[idx[i]]) << 8
+	}
+	out = append([]byte{}, value...)
+	for i := 0; i < 4; i++ {
+		out[len(out)-4+i] = byte(reg) ^ idx[i]
+		reg = tab[idx[i]] ^ (reg >> 8)
+	}
+	copy(buf[len(buf)-4:], out[len(out)-4:])
+	return out, crc32.ChecksumIEEE(buf) == target
+}
